@@ -62,15 +62,16 @@ CallsAreIndependent(t) == t.rep <= TolG /\ t.keep <= TolG /\ ~t.argmut
 \* dose vector; t.xres = cross-checks of the same stack / doses in other forms (single precision array, stack file of
 \* every accepted extension, output file written and read back): relative difference to the float64 result x 1e9
 StackForms == {"xyz_c", "xyz_f", "xyz_view", "zyx_c", "xyz_ro", "xyz_strided", "xyz_c_outzyx", "zyx_c_outxyz"}
-PixelSpellings == {"float", "np64", "np32", "str", "int"}
+PixelSpellings == {"float", "np64", "np32", "str", "int", "npi32", "npi64"}
 DoseForms == {"array", "list", "file", "csv"}
 TolX == 2000          \* 2e-6 relative: single-precision storage (unchanged tree: 6e-8)
 FormsKnown(t) == t.form \in StackForms /\ t.pxas \in PixelSpellings /\ t.dosesas \in DoseForms
 SameForEveryInputForm(t) == \A i \in DOMAIN t.xres : t.xres[i].res <= TolX
 
 \* the zero-frequency component, hence the image mean, is unchanged
+\* (t.degen: constant images - 0, 1, 0.5, -3 - inside an otherwise random stack come back unchanged, no NaN anywhere)
 MeanUnchanged(t) ==
-    /\ t.mean <= TolG
+    /\ t.mean <= TolG /\ t.degen <= TolG
     /\ \A i \in Images(t), e \in Entries(t) : t.ent[e] = <<0, 0>> => Abs(t.A[i][e]) <= 1
 
 PowerNeverIncreases(t) == \A i \in Images(t), e \in Entries(t) : t.A[i][e] >= -1
@@ -94,8 +95,12 @@ Ref(t) == LET pos == {i \in Images(t) : t.d100[i] > 0}
               ELSE CHOOSE i \in pos : \A j \in pos : t.d100[i] < t.d100[j] \/ (t.d100[i] = t.d100[j] /\ i <= j)
 DosePairing(t) == \A j \in Images(t) : Proportional(t, Ref(t), j)
 
+\* ... and a dose of at least 1 e/A^2 does attenuate: at the frequency with the largest radial key (the last entry; at
+\* least the Nyquist frequency of an axis, >= 0.04 1/A for pixel sizes up to 10 A, where 2 Ne < 110) the exponent is
+\* at least 9e-3 per e/A^2 - so an image that comes back unfiltered is rejected also off the calibration grid
 MoreDoseAttenuatesMore(t) ==
-    \A i, j \in Images(t) : t.d100[i] <= t.d100[j] => \A e \in Entries(t) : t.A[i][e] <= t.A[j][e] + TolA
+    /\ \A i, j \in Images(t) : t.d100[i] <= t.d100[j] => \A e \in Entries(t) : t.A[i][e] <= t.A[j][e] + TolA
+    /\ Len(t.ent) >= 2 => \A i \in Images(t) : t.d100[i] >= 100 => t.A[i][Len(t.ent)] >= 5
 
 \* calibration against the closed form of the statement at on-axis frequencies that fall on the table grid:
 \*   A = d / TwoNe(f)   <=>   (A x 1e3) * (TwoNe x 1e2) = d100 * 1e3,    within 0.5 %, for doses >= 50 e/A^2
